@@ -9,6 +9,7 @@ import CM.Driver.OpsC19
 import CM.Driver.OpsDeps
 import CM.Driver.OpsArgs
 import CM.Driver.OpsPrec
+import CM.Driver.OpsScope
 open Lean
 namespace CM.Driver
 
@@ -76,6 +77,7 @@ def dispatch (j : Json) : Except String Json := do
   | "prec" => opPrec j
   | "prec_walrus" => opPrecWalrus j
   | "prec_eval" => opPrecEval j
+  | "scope_clean" => opScopeClean j
   | _ => .error s!"bad-op: unknown op {op}"
 
 end CM.Driver
